@@ -1196,7 +1196,10 @@ class Interp:
             v = s.get(k)
             if isinstance(v, AV) and v.atoms and v.atoms <= {"dict", "dict0", "list", "list0"}:
                 # containers that only differ in what is known about individual keys are merged by join
-                return ("container", "dict" if v.atoms <= {"dict", "dict0"} else "list" if v.atoms <= {"list", "list0"} else "mixed", v.keys_str, repr(v.elem), repr(v.kelem))
+                # ... but an EMPTY container and a possibly non-empty one are different values: merging `{list0}, valid=True` with `{list}, valid=False` as
+                # "differing in valid only" would invent the state `non-empty unvalidated list, valid=True`
+                return ("container", "dict" if v.atoms <= {"dict", "dict0"} else "list" if v.atoms <= {"list", "list0"} else "mixed", tuple(sorted(v.atoms)),
+                        v.keys_str, repr(v.elem), repr(v.kelem))
             return repr(v)
 
         merged = []
